@@ -132,7 +132,7 @@ def tystr_esz(s):
 
 
 class Interp:
-    def __init__(self, fn, syms, env=None, observe=None, max_paths=64, esz_of=None):
+    def __init__(self, fn, syms, env=None, observe=None, max_paths=64, esz_of=None, parity=None, callees=None):
         """syms: canonical string -> Poly (symbol bindings for members/params); env: canonical string -> int used only to
         decide branches (and as values when no symbol is bound)"""
         self.fn = fn
@@ -144,6 +144,8 @@ class Interp:
         self.al = fn.aliases()
         self.notes = []
         self.esz_of = esz_of or {}
+        self.parity = parity        # None: E mod 2 stays the symbol P; 0 / 1: concrete
+        self.callees = callees or {}    # unqualified name -> function dict, interpreted at call sites
 
     # ---------------------------------------------------------- evaluation
     def ev(self, t, st):
@@ -217,7 +219,7 @@ class Interp:
                 ls, rs = S(t["l"], self.al), S(t["r"])
                 lv = self.ev(t["l"], st)
                 if lv is not None and lv.p == Poly.sym("E") and ((op == "%" and rs == "2") or (op == "&" and rs == "1")):
-                    return Val(Poly.sym("P"))
+                    return Val(Poly.sym("P") if self.parity is None else Poly.const(self.parity))
                 if op == "&":
                     # align-up idiom (x + 7) & ~7
                     m = re.fullmatch(r"~(\d+)", rs)
@@ -227,6 +229,8 @@ class Interp:
                         base = self.ev(t["l"]["l"], st)
                         if base is not None and add is not None and add.p == Poly.const(a - 1):
                             r = align_up(base.p, a)
+                            if r is not None and self.parity is not None:
+                                r = r.subst("P", self.parity)
                             return Val(r, base.esz) if r is not None else None
                 return None
             a, b = self.ev(t["l"], st), self.ev(t["r"], st)
@@ -263,6 +267,8 @@ class Interp:
                 return None
             if t.get("op") == "*" or nm == "operator*":
                 return None
+            if nm in self.callees:
+                return self.call(self.callees[nm], t.get("a", []), st)
             s2 = S(t)
             for key in (s, s2):
                 if key in self.syms:
@@ -271,6 +277,25 @@ class Interp:
                 if key in self.env:
                     return Val(Poly.const(self.env[key]))
             return None
+        return None
+
+    def call(self, g, args, st):
+        """interpret callee g with the argument values; every returning path must yield the same value"""
+        vals = [self.ev(a, st) for a in args]
+        syms, env = {}, {}
+        for prm, v in zip(g.get("params", []), vals):
+            if v is None:
+                continue
+            syms[prm["n"]] = v.p
+            if v.p.is_const():
+                env[prm["n"]] = v.p.cval()
+        sub = Interp(Fn(g), syms, env, observe=lambda e: e["k"] == "ret", parity=self.parity, callees=self.callees)
+        out = set()
+        for st2, obs in sub.run():
+            for o in obs:
+                out.add(o.get("value").p if o.get("value") is not None else None)
+        if len(out) == 1 and None not in out:
+            return Val(next(iter(out)))
         return None
 
     def decide(self, t, st):
@@ -296,15 +321,23 @@ class Interp:
     # ------------------------------------------------------------- running
     def step_event(self, e, st, seen_obs):
         k = e["k"]
+        rec = None
         if self.observe(e):
             rec = {"event": e}
             if k == "call":
                 rec["args"] = [self.ev(a, st) for a in e.get("a", [])]
-            if k in ("assign",):
-                rec["value"] = self.ev(e.get("rhs"), st) if e.get("op") == "=" else None
             if k == "ret":
                 rec["value"] = self.ev(e.get("e"), st)
             seen_obs.append(rec)
+        self._apply(e, st)
+        if rec is not None:
+            if k == "assign":
+                rec["value"] = st.get(S(e.get("lhs"), self.al))
+            elif k == "decl":
+                rec["value"] = st.get(e["n"])
+
+    def _apply(self, e, st):
+        k = e["k"]
         if k == "decl":
             if "init" in e:
                 v = self.ev(e["init"], st)
